@@ -120,6 +120,12 @@ class Normalizer:
             return False
         if fd.cls and any(name in self.by_class.get(s, {}) for s in _subclasses(fd.cls, self.bases)):
             return False
+        # a mutable default is ONE object shared by all calls: folding the helper would make it look fresh per call
+        a = fd.node.args
+        for dflt in list(a.defaults) + [d for d in a.kw_defaults if d is not None]:
+            if isinstance(dflt, (ast.List, ast.Dict, ast.Set)) or (isinstance(dflt, ast.Call) and isinstance(dflt.func, ast.Name) and
+                                                                    dflt.func.id in ('list', 'dict', 'set')):
+                return False
         for n in ast.walk(fd.node):
             if isinstance(n, (ast.Yield, ast.YieldFrom, ast.Try, ast.With, ast.Global, ast.Nonlocal, ast.Lambda)) and not isinstance(n, ast.Lambda):
                 return False
